@@ -83,7 +83,9 @@ def record(lentil, tier, seed):
             for s in (sd, sd2, sd):
                 call('shot_noise', f'{method}|{key_img}', s, lambda s=s, method=method: d.shot_noise(img, method=method, seed=s), pred)
             # rejection of negative and unrepresentably large signals, scalar and array
-            bad_inputs = [-1.0, np.where(np.arange(img.size).reshape(sh) == 1, -3.0, img), 1e19, np.where(np.arange(img.size).reshape(sh) == 0, 1e19, img)]
+            bad_inputs = [-1.0, np.where(np.arange(img.size).reshape(sh) == 1, -3.0, img), 1e19, np.where(np.arange(img.size).reshape(sh) == 0, 1e19, img),
+                          # within ten standard deviations of the largest representable count (documented limit 9.223372006484771e18)
+                          9.22337203e18, np.where(np.arange(img.size).reshape(sh) == 0, 9.2233720368e18, img)]
             b = rng.choice(bad_inputs)
             call('shot_noise', f'{method}|bad|{dg(b)}', sd, lambda b=b, method=method: d.shot_noise(b, method=method, seed=sd), {}, expect='reject')
         pred = {'shape': lambda a, sh=sh: a.shape == sh, 'finite': lambda a: np.all(np.isfinite(a)), 'moments': lambda a: True}
